@@ -67,26 +67,82 @@ def position_group_pairs(P, res, M=M):
         return out
 
     def same_line_start(g, rv):
-        """the stored value is `text[..old].rfind('\n').map(|i| i + 1).unwrap_or(0)`: the start of the same line"""
+        """the stored value is the start of the same line: every source of it is 0 or `<rfind('\\n') result> + 1`, whether it
+        is written `.map(|i| i + 1).unwrap_or(0)` or as a `match` on the rfind result."""
         if rv["k"] != "use":
             return False
-        cur = g.root_of(rv["a"], through_named=True)
-        for _ in range(8):
-            if cur[0] == "place":
-                dd = [d for d in g.defs.get(cur[1]["l"], []) if d[1] == "term"]
-                if len(dd) != 1:
+        found_rfind = []
+
+        def leaves(op, seen, depth=0):
+            c = M.op_const(op)
+            if c is not None:
+                return c.get("v") == 0
+            q = M.op_place(op)
+            if q is None or depth > 8:
+                return False
+            cur = g.root_of(op, through_named=True)
+            if cur[0] == "call":
+                n = M.callee_name(cur[2]) or ""
+                if n.endswith("<impl str>::rfind"):
+                    cc = M.op_const(cur[2]["args"][1]) if len(cur[2]["args"]) > 1 else None
+                    if cc is not None and cc.get("v") == 10:
+                        found_rfind.append(1)
+                        return True
                     return False
-                cur = ("call", dd[0][0], dd[0][2])
-                continue
-            if cur[0] != "call":
+                if n.endswith(("::map", "::unwrap_or", "::map_or", "::unwrap_or_default", "::unwrap_or_else")) and cur[2]["args"]:
+                    return leaves(cur[2]["args"][0], seen, depth + 1) and all(
+                        (M.op_const(a) is None or M.op_const(a).get("v") == 0) for a in cur[2]["args"][1:])
                 return False
-            if (M.callee_name(cur[2]) or "").endswith("<impl str>::rfind"):
-                c = M.op_const(cur[2]["args"][1]) if len(cur[2]["args"]) > 1 else None
-                return c is not None and c.get("v") == 10
-            if not cur[2]["args"]:
+            if cur[0] == "rv":
+                rv2 = cur[3]["rv"]
+                if rv2["k"] == "binop" and rv2["op"] in ("Add", "AddWithOverflow", "AddUnchecked"):
+                    cb = M.op_const(rv2["b"])
+                    return cb is not None and cb.get("v") == 1 and leaves(rv2["a"], seen, depth + 1)
                 return False
-            cur = g.root_of(cur[2]["args"][0], through_named=True)
-        return False
+            if cur[0] == "place":
+                l = cur[1]["l"]
+                if cur[1]["p"]:
+                    # payload of an Option (`Some(i)` of the rfind result) or the .0 of an overflow-checked add
+                    base = {"copy": {"l": l, "p": []}}
+                    d_ = g.single_def(l)
+                    if d_ is not None and d_[1] != "term" and d_[2]["rv"]["k"] == "binop":
+                        rv2 = d_[2]["rv"]
+                        cb = M.op_const(rv2["b"])
+                        return rv2["op"].startswith("Add") and cb is not None and cb.get("v") == 1 and leaves(rv2["a"], seen, depth + 1)
+                    return leaves(base, seen, depth + 1)
+                if l in seen:
+                    return True
+                seen.add(l)
+                defs = g.defs.get(l, [])
+                if not defs:
+                    return False
+                ok_ = True
+                for (b_, si, st_) in defs:
+                    if si == "term":
+                        ok_ = ok_ and leaves({"copy": {"l": l, "p": []}}, seen, depth + 1) if False else ok_ and _call_leaf(st_, seen, depth)
+                    elif st_.get("s") == "assign" and st_["rv"]["k"] == "use":
+                        ok_ = ok_ and leaves(st_["rv"]["a"], seen, depth + 1)
+                    elif st_.get("s") == "assign" and st_["rv"]["k"] == "binop":
+                        rv2 = st_["rv"]
+                        cb = M.op_const(rv2["b"])
+                        ok_ = ok_ and rv2["op"].startswith("Add") and cb is not None and cb.get("v") == 1 and leaves(rv2["a"], seen, depth + 1)
+                    else:
+                        ok_ = False
+                return ok_
+            return False
+
+        def _call_leaf(t_, seen, depth):
+            n = M.callee_name(t_) or ""
+            if n.endswith("<impl str>::rfind"):
+                cc = M.op_const(t_["args"][1]) if len(t_["args"]) > 1 else None
+                if cc is not None and cc.get("v") == 10:
+                    found_rfind.append(1)
+                    return True
+                return False
+            if n.endswith(("::map", "::unwrap_or", "::map_or", "::unwrap_or_default", "::unwrap_or_else")) and t_["args"]:
+                return leaves(t_["args"][0], seen, depth + 1)
+            return False
+        return leaves(rv["a"], set()) and bool(found_rfind)
     for off, col, line in (("start_offset", "column", "line_number"), ("end_offset", "end_column", "end_line_number")):
         for fn_path in sorted(stores[off]):
             g = P.funcs[fn_path]
